@@ -122,6 +122,8 @@ def family(seed):
         E("EAttrDiscMix", [V("A", disc=5), V("B", index=5 + 1, disc=5 + 2), V("C"), V("D", skip=True), V("F", disc=250)]),
         E("ESkipField", [V("A", "tuple", [F("u8", "skip"), F("u16")]), V("B", "named", [F("u32", "skip", name="p")])]),
         E("ESkipAttrLast", [V("A"), V("Retired", index=7, skip=True, skip_last=True), V("B", "tuple", [F("u8")]), V("C", "tuple", [F("OneV")], index=9)]),
+        # explicit discriminants on FIELD-CARRYING variants (needs #[repr(u8)]) -- they are the index just as on unit variants
+        E("EDiscFields", [V("A", "tuple", [F("u16")], disc=10), V("B", "named", [F("u8", name="x")], disc=20), V("C", disc=30), V("D", "tuple", [F("bool")])]),
         # variants with the SAME field types whose attributes differ (the larger one comes later)
         E("EDupTypes", [V("A", "tuple", [F("u64")]), V("B", "tuple", [F("u64", "compact")]), V("C", "tuple", [F("u64")])]),
         E("EDupTypes2", [V("A", "named", [F("u8", "compact", name="x")]), V("B", "named", [F("u8", name="x")]), V("C", "named", [F("u8", "encoded_as", name="x")])], tier="t"),
@@ -249,6 +251,8 @@ def emit(fam):
             w("impl DerivedInfo for %s { fn in_skipped_variant(&self) -> bool { false } fn skipped_fields_default(&self) -> bool { let %s%s = self; %s } }" % (
                 t.name, t.name, pat(t.kind, t.fields, "s_"), default_fields(t.fields, "s_")))
             t.maxlen = sum(f.maxlen() for f in t.fields)
+            if not t.generic:
+                w("impl Elem for %s {}" % t.name)
         else:
             idx = t.indices()
             w("#[derive(%s)]" % derives)
@@ -322,6 +326,15 @@ def emit(fam):
             if isinstance(t, S) and t.transparent:
                 w('#[cfg(feature = "c02")] #[kani::proof] #[kani::unwind(%d)] pub fn c02q_derived_%s_boxed_rt() { h_rt::<Box<%s>, %d, 2>(2) }' % (u, nm, t.name, n + 2))
                 w('#[cfg(feature = "c03")] #[kani::proof] #[kani::unwind(%d)] pub fn c03q_derived_%s_boxed_dec() { h_dec::<Box<%s>, %d>() }' % (u, nm, t.name, l))
+        if isinstance(t, S) and not t.generic and 0 < t.maxlen <= 5 and "Vec" not in "".join(f.ty for f in t.fields) and "Box" not in "".join(f.ty for f in t.fields):
+            # the type as an ELEMENT of a sequence / array (bulk paths are selected per element type)
+            w('#[cfg(feature = "c01")] #[kani::proof] #[kani::unwind(%d)] pub fn c01%s_derived_%s_as_elem_enc() { h_enc::<Vec<%s>, %d>(2); h_enc::<[%s; 2], %d>(2) }' % (2 * u + 2, q, nm, t.name, 2 * n + 4, t.name, 2 * n + 4))
+            w('#[cfg(feature = "c02")] #[kani::proof] #[kani::unwind(%d)] pub fn c02%s_derived_%s_as_elem_rt() { h_rt_cnt::<Vec<%s>, %d, 2>(2, None) }' % (2 * u + 2, q, nm, t.name, 2 * n + 6))
+        if not all_skipped and t.maxlen <= 9:
+            w('#[cfg(feature = "c18")] #[kani::proof] #[kani::unwind(%d)] pub fn c18%s_derived_%s_skip() { h_skip::<%s, %d>() }' % (u, q, nm, t.name, l))
+        if isinstance(t, S) and t.transparent and t.maxlen > 0:
+            w('#[cfg(feature = "c14")] #[kani::proof] #[kani::unwind(%d)] pub fn c14%s_derived_%s_boxed_pfx() { h_prefix::<Box<%s>, %d>(2) }' % (u, q, nm, t.name, n + 2))
+        w('#[cfg(feature = "c13")] #[kani::proof] #[kani::unwind(%d)] pub fn c13%s_derived_%s_fixed() { crate::c13_lengths::h_fixed::<%s, %d>(false) }' % (u, q, nm, t.name, n))
         if t.mel:
             w('#[cfg(feature = "c13")] #[kani::proof] #[kani::unwind(%d)] pub fn c13%s_derived_%s_max() { h_max_derived::<%s, %d>() }' % (u, q, nm, t.name, n))
         single = isinstance(t, S) and len([f for f in t.fields if f.attr != "skip"]) == 1
